@@ -10,6 +10,9 @@ structure HState where
   repo : Repo := Repo.empty .v1_0
   /-- external source files: relative path ↦ (sha256, sha512) -/
   ext : List (Str × (Str × Str)) := []
+  /-- staged repositories of the clients that are not active (`client k` swaps) -/
+  others : List (Nat × List (Str × Obj)) := []
+  client : Nat := 0
   /-- set once an operation's result depended on hash-map iteration order -/
   nondet : Bool := false
   clock : Nat := 0
@@ -56,6 +59,16 @@ def mkSrc (st : HState) (alg : DAlg) (rel : Str) : Src :=
 
 def joinHex (xs : List Str) (sep : String) : String := sep.intercalate (xs.map encodeArg)
 
+/-- parse `v<digits>/<rest>` -/
+def parseCPath (s : Str) : Option CPath :=
+  match s with
+  | 'v' :: t =>
+    let ds := t.takeWhile (· != '/')
+    match (String.ofList ds).toNat?, t.dropWhile (· != '/') with
+    | some n, '/' :: rest => some (n, rest)
+    | _, _ => none
+  | _ => none
+
 def showDigests (ds : List Digest) : String := "|".intercalate (ds.map String.ofList)
 
 /-- last version (walking back from `vn`) in which `p` got its current digest -/
@@ -84,13 +97,13 @@ def showView (inv : Inv) (vn : Nat) : String :=
   | some v =>
     let rows := v.state.map (fun e =>
       let cps := match inv.contentPathsForDigest e.2 (lastUpdate inv vn e.1) (some e.1) with
-        | .ok cps => joinHex cps "|"
+        | .ok cps => joinHex (cps.map inv.showCPath) "|"
         | .error _ => "!"
       s!"{encodeArg e.1}:{String.ofList e.2}:{cps}:v{lastUpdate inv vn e.1}")
     "ok " ++ " ".intercalate (sortStr rows)
 
-def showManifest (m : List (CPath × Digest)) : String :=
-  "ok " ++ " ".intercalate (sortStr (m.map (fun e => s!"{encodeArg e.1}:{String.ofList e.2}")))
+def showManifest (inv : Inv) (m : List (CPath × Digest)) : String :=
+  "ok " ++ " ".intercalate (sortStr (m.map (fun e => s!"{encodeArg (inv.showCPath e.1)}:{String.ofList e.2}")))
 
 def parseMeta (user addr msg created : String) : Meta :=
   { created := created.toList, message := optArg msg,
@@ -102,11 +115,9 @@ def parseMeta (user addr msg created : String) : Meta :=
 def parseKeep (inv : Inv) (spec : String) : Digest → List CPath :=
   if spec == "default" then inv.defaultKeep
   else
-    let obs : List CPath := (spec.splitOn ",").filterMap (fun s => if s == "-" || s == "" then none else decodeArg s)
+    let obs : List CPath := (spec.splitOn ",").filterMap (fun s =>
+      if s == "-" || s == "" then none else (decodeArg s).bind parseCPath)
     fun d => (inv.headPathsFor d).filter (fun cp => obs.contains cp)
-
-def keepAdmissible (inv : Inv) (keep : Digest → List CPath) : Bool :=
-  (inv.manifest.map (·.2)).eraseDups.all (fun d => inv.dedupAdmissible d (keep d))
 
 def now (st : HState) : Str := s!"t{st.clock}".toList
 
@@ -122,12 +133,17 @@ def internalNondet (r : Repo) (id : Str) (srcVer : Option Nat) (srcs : List Str)
     | some sv =>
       match resolveInternalMoves o.inv.headVersion sv srcs dst recursive with
       | .error _ => false
-      | .ok acc => pairsInteract acc.toMove || acc.toMove.any (fun p => lookupAmbiguous o srcV p.1)
+      | .ok acc => pairsInteract acc.toMove
 
 def histStep (st : HState) (op : String) (a : List String) : HState × String :=
   let st := { st with clock := st.clock + 1 }
   match op, a with
   | "reset", _ => ({}, "ok")
+  | "client", [k] =>
+    let k := k.toNat?.getD 0
+    let saved := AL.insert st.others st.client st.repo.staged
+    let mine := (AL.get saved k).getD []
+    ({ st with others := saved, client := k, repo := { st.repo with staged := mine } }, "ok")
   | "init", [spec] => ({ st with repo := Repo.empty ((parseSpec spec).getD .v1_0) }, "ok")
   | "mkfile", [rel, s256, s512] => ({ st with ext := AL.insert st.ext (arg rel) (s256.toList, s512.toList) }, "ok")
   | "new", [id, alg, cdir, width, spec] =>
@@ -139,15 +155,15 @@ def histStep (st : HState) (op : String) (a : List String) : HState × String :=
   | "cpx", id :: rec :: dst :: srcs =>
     let alg := objAlg st (arg id)
     let res := copyExternal st.repo (arg id) (srcs.map (fun s => mkSrc st alg (arg s))) (arg dst) (rec == "1") (now st)
-    ({ st with repo := res.repo }, outcome res.outcome)
+    ({ st with repo := res.2.1 }, outcome res.1)
   | "mvx", id :: dst :: srcs =>
     let alg := objAlg st (arg id)
     let rels := srcs.map arg
     let res := copyExternal st.repo (arg id) (rels.map (mkSrc st alg)) (arg dst) true (now st)
     -- consumed source files disappear from the scratch directory
-    let gone : List Str := (rels.zip res.consumed).flatMap (fun (rel, used) =>
+    let gone : List Str := (rels.zip res.2.2).flatMap (fun (rel, used) =>
       used.map (fun u => resolvePath (parentPath rel) u))
-    ({ st with repo := res.repo, ext := st.ext.filter (fun e => !gone.contains e.1) }, outcome res.outcome)
+    ({ st with repo := res.2.1, ext := st.ext.filter (fun e => !gone.contains e.1) }, outcome res.1)
   | "cpi", id :: ver :: rec :: dst :: srcs =>
     let nd := internalNondet st.repo (arg id) (parseVer ver) (srcs.map arg) (arg dst) (rec == "1") (now st)
     let (res, r) := internalOp false st.repo (arg id) (parseVer ver) (srcs.map arg) (arg dst) (rec == "1") (now st)
@@ -170,17 +186,17 @@ def histStep (st : HState) (op : String) (a : List String) : HState × String :=
     | none => (st, "err:general")
     | some o =>
       let keep := parseKeep o.inv keepSpec
-      if !keepAdmissible o.inv keep then (st, "inadmissible-dedup-choice") else
+      if !o.inv.keepAdmissible keep then (st, "inadmissible-dedup-choice") else
       let (res, r) := commit st.repo (arg id) (parseMeta user addr msg created) keep (hasRoot == "1")
       ({ st with repo := r }, outcome res)
-  | "upgrade", [id, spec, user, addr, msg, created, keepSpec] =>
+  | "upgrade", [id, spec, hasLayout, user, addr, msg, created, keepSpec] =>
     let r0 := st.repo
     match getOrCreateStaged r0 (arg id) (now st) with
     | .error e => (st, "err:" ++ errName e)
     | .ok (_, o) =>
       let keep := parseKeep o.inv keepSpec
-      if !keepAdmissible o.inv keep then (st, "inadmissible-dedup-choice") else
-      let (res, r) := upgradeObject r0 (arg id) ((parseSpec spec).getD .v1_1) (parseMeta user addr msg created) keep (now st)
+      if !o.inv.keepAdmissible keep then (st, "inadmissible-dedup-choice") else
+      let (res, r) := upgradeObject r0 (arg id) ((parseSpec spec).getD .v1_1) (parseMeta user addr msg created) keep (hasLayout == "1") (now st)
       ({ st with repo := r }, outcome res)
   | "upgraderepo", [spec] =>
     let t := (parseSpec spec).getD .v1_1
@@ -207,19 +223,19 @@ def histStep (st : HState) (op : String) (a : List String) : HState × String :=
   | "manifest", [id] =>
     match AL.get st.repo.main (arg id) with
     | none => (st, "err:notFound")
-    | some o => (st, showManifest o.inv.manifest)
+    | some o => (st, showManifest o.inv o.inv.manifest)
   | "smanifest", [id] =>
     match AL.get st.repo.staged (arg id) with
     | none => (st, "err:notFound")
-    | some o => (st, showManifest o.inv.manifest)
+    | some o => (st, showManifest o.inv o.inv.manifest)
   | "files", [id] =>
     match AL.get st.repo.main (arg id) with
     | none => (st, "err:notFound")
-    | some o => (st, showManifest o.files)
+    | some o => (st, showManifest o.inv o.files)
   | "sfiles", [id] =>
     match AL.get st.repo.staged (arg id) with
     | none => (st, "err:notFound")
-    | some o => (st, showManifest o.files)
+    | some o => (st, showManifest o.inv o.files)
   | "ids", _ =>
     (st, "ok main=" ++ ",".intercalate (sortStr (st.repo.main.map (fun e => encodeArg e.1)))
       ++ " staged=" ++ ",".intercalate (sortStr (st.repo.staged.map (fun e => encodeArg e.1))))
